@@ -1,10 +1,12 @@
 """C20 — compiled and interpreted execution agree (structural clauses)."""
+from . import scopes
 from ..core.report import DOMAIN_D
 from ..rules import eager, buffers, aabbtree
 from .common import e1
 
 
 def run(idx, rep, tier):
+    rep.set_scope(scopes.scope(idx, "C20"))
     rep.explanation = (
         "Divergences between numba-compiled and interpreted execution that are visible in the source: R-EAGER (a call whose "
         "argument layout/dtype/ndim the explicit signature rejects raises TypeError compiled and succeeds interpreted), "
